@@ -302,7 +302,7 @@ def gen_red(draw, schema):
             kw["min_count"] = draw(st.sampled_from([0, 1, 3]))
         if name in ("var", "std", "sem") and draw(st.booleans()):
             kw["ddof"] = draw(st.sampled_from([0, 1, 2]))
-        if "cols" in r and draw(st.integers(0, 3)) == 0 and all(d[c] in ("int", "float", "bool") for c in r["cols"]):
+        if "cols" in r and draw(st.integers(0, 3)) == 0 and all(d[c] in ("int", "float") for c in r["cols"]):
             kw["axis"] = 1
     elif name in ("min", "max"):
         pool = orderable
@@ -312,7 +312,7 @@ def gen_red(draw, schema):
             return None
         if draw(st.booleans()):
             kw["skipna"] = draw(st.booleans())
-        if "cols" in r and draw(st.integers(0, 3)) == 0 and all(d[c] in ("int", "float", "bool") for c in r["cols"]):
+        if "cols" in r and draw(st.integers(0, 3)) == 0 and all(d[c] in ("int", "float") for c in r["cols"]):
             kw["axis"] = 1
     elif name == "count":
         if series:
